@@ -1358,6 +1358,7 @@ func (x *Exec) havocLoop(st *State, fr *Frame, hdr *ssa.BasicBlock) {
 				lf.locs = append(lf.locs, l)
 			}
 		}
+		allocPre := st.heapGet("Alloc", ArrSort(SInt, SBool))
 		if ms.allocs {
 			old := st.heapGet("Alloc", ArrSort(SInt, SBool))
 			nw := st.X.fresh("Alloc", ArrSort(SInt, SBool))
@@ -1366,12 +1367,43 @@ func (x *Exec) havocLoop(st *State, fr *Frame, hdr *ssa.BasicBlock) {
 			st.Heap["Alloc"] = nw
 		}
 		if lf != nil {
-			// precise havoc: only the declared locations; the rest is checked unchanged at every back edge
+			// precise havoc: rows of objects that existed before the loop and are outside the declared locations keep
+			// their pre-loop contents; everything else (declared locations, objects allocated by earlier iterations) is unknown
 			for _, n := range names {
-				st.heapGet(n, ms.sorts[n])
-			}
-			for _, l := range lf.locs {
-				x.havocLoc(st, l)
+				if n == "Alloc" || n == "Held" {
+					continue
+				}
+				pre := st.heapGet(n, ms.sorts[n])
+				whole := false
+				var refs []*T
+				for _, l := range lf.locs {
+					for _, a := range l.Arrays {
+						if a == n {
+							if l.Ref == nil {
+								whole = true
+							} else {
+								refs = append(refs, l.Ref)
+							}
+						}
+					}
+				}
+				if !pre.S.IsArray() || strings.HasPrefix(n, "G_") {
+					if whole {
+						st.havocHeap(n)
+					}
+					continue
+				}
+				nw := st.X.fresh(n, pre.S)
+				if !whole {
+					r := Sym("r!lh", SInt)
+					conds := []*T{Select(allocPre, r)}
+					for _, rf := range refs {
+						conds = append(conds, Ne(r, rf))
+					}
+					st.Assume(Forall([]*T{r}, Implies(And(conds...), Eq(Select(nw, r), Select(pre, r)))))
+				}
+				st.Heap[n] = nw
+				st.AsOf[n] = st.Heap["Alloc"]
 			}
 			for _, n := range names {
 				lf.head[n] = st.Heap[n]
@@ -1399,6 +1431,7 @@ func (x *Exec) havocLoop(st *State, fr *Frame, hdr *ssa.BasicBlock) {
 		for f != nil {
 			if old, ok := f.cells[a]; ok {
 				nv := st.freshVal(old.Typ, sanitize(a.Comment))
+				x.assumeParamAllocated(st, old.Typ, nv)
 				f.cells[a] = nv
 				break
 			}
